@@ -83,6 +83,14 @@ CHECKS = {
         technique=RM + 'equivalence-class monitor: make_cache_key on a dataset and on constructed twins (22 invariant edits, 12 sensitive single geometry edits, netCDF round trips, fresh interpreters with different hash seeds) + mechanism classifier for the known marshal finding + reach monitor',
         text='Same key demanded for edits of non-geometry content, rebuilt twins, reopened files and other processes; different key demanded for each single geometry edit (1 ulp, dtype, shape with same bytes, rename, attribute add/change/remove, different convention class).',
         note=NOTE + 'Open known finding marshal-object-identity is reported as KNOWN-FINDING only when the harness fingerprint and a canonical re-serialisation of the attributes agree; sensitive edits must also change the canonical key so marshal noise cannot mask a miss.', ref='DESIGN.md §5 C16'),
+    'C17': dict(
+        technique=RM + 'exhaustive enumeration as workload of composed time-unit strings (true instant known by construction) under an in-situ icontract post-condition with an independent parser + file round-trip monitor (emsarray.open_dataset and raw netCDF4) + reach monitor',
+        text='(1) format_time_units_for_ems on strings composed from period x 105 UTC offsets (-12:00..+14:00 by 15 min) x 7 writing styles x 9 epochs (leap day, year/day boundaries, year < 1000): output must have the EMS form and denote the same instant for the harness parser AND for cftime; thorough enumerates all 33 255 strings; (2) ems.to_netcdf / to_netcdf_with_fixes on datasets of all conventions (with and without time axis, from memory or from disk): same convention, polygons, values, decoded instants after reopening; EMS-form units with the right instant and no invented _FillValue on disk.',
+        note=NOTE + 'Inputs restricted to styles that cftime itself reads as the composed instant. The exhaustive flag refers to the units grid of the thorough tier.', ref='DESIGN.md §5 C17'),
+    'C20': dict(
+        technique=RM + 'differential monitor CLI vs library at the file level (in-process emsarray.cli.main with captured exit status / stderr, plus a python -m emsarray subprocess sample) + composed-grammar monitor on geometry_argument / bounds_argument + expected-error events + reach monitor',
+        text='clip / extract-points / export-geometry are run on generated datasets of every convention on disk and the output files compared (variables, dims, attributes, raw values; bytes for geometry formats) with the corresponding library call; bounds strings composed from four numbers must give exactly box(a,b,c,d), composed non-bounds strings must never become a box, GeoJSON text/files must equal shape(obj); user errors must exit non-zero with a message and no output file.',
+        note=NOTE + 'If the library call itself raises, only the CLI failure mode is asserted. Leading/trailing blanks and arguments starting with "-" are not asserted. Subprocess sample runs with the synchronous dask scheduler.', ref='DESIGN.md §5 C20'),
 }
 
 PENDING_REASON = 'monitor not built yet in this session (planned, see DESIGN.md §5); will be claimed once its check runs clean on the unchanged tree'
